@@ -56,6 +56,17 @@ def generate(prop, seed, tier):
                               [{'label': l, 'id': None} for l in spec['nts']['S']['type']],
                               'ext': list(range(n, n + len(spec['nts']['S']['type']))),
                               'edges': [{'label': 'hb', 'att': [u, v], 'id': None} for u, v in edges]})
+    if g.random() < 0.05:
+        # a long rule (13-16 nodes of a one-valued label, tree-shaped): the requested method has to be honoured for big
+        # right-hand sides as well
+        n = g.randrange(13, 17)
+        spec['domains']['U'] = {'kind': 'range', 'size': 1}
+        spec['terms']['uu'] = {'type': ['U', 'U'], 'weights': [[round(0.5 + 0.4 * g.random(), 3)]]}
+        st = spec['nts'][spec['start']]['type']
+        edges = [{'label': 'uu', 'att': [g.randrange(i), i] if g.random() < 0.5 else [i, g.randrange(i)], 'id': None} for i in range(1, n)]
+        spec['rules'].append({'lhs': spec['start'], 'nodes': [{'label': 'U', 'id': None if g.random() < 0.5 else 'u%d' % i} for i in range(n)] +
+                              [{'label': l, 'id': None} for l in st],
+                              'ext': list(range(n, n + len(st))), 'edges': edges})
     # existing labels named like the fresh ones
     extra = []
     if g.random() < 0.5:
